@@ -617,6 +617,9 @@ func init() {
 		checkBudget(r, prog, a, "c11")
 		checkParseWrappersForward(r, prog, "c11")
 		checkWrapperResults(r, prog, "c11")
+		r.importing = "C18"
+		checkGetOpts(r, prog, a, "c18") // the budget reaches CreateEvaluator wherever it stands in the option list
+		r.importing = ""
 		r.importing = "C10"
 		checkCreateEvaluator(r, prog, a, nil, "c10") // every creation parses, once: acceptance is a function of (bytes, budget) only
 		checkRecoverDiscipline(r, prog, "c10")
@@ -740,6 +743,45 @@ func checkParseWrappersForward(r *Run, prog *Program, pfx string) {
 		}
 	}
 	r.Check(pfx+".transport", "wrapper:census", "grammar/grammar.go", n >= 1, fmt.Sprintf("info: %d forwarding entry points examined", n))
+	// … and all of the input: what an entry point reads, it reads from the reader (the file) it was given, to the end —
+	// ReadAll of that very value, not of a wrapper that may cut it short
+	for _, name := range names {
+		fn, ok := prog.GrammarSSA.Members[name].(*ssa.Function)
+		if !ok || fn.Object() == nil || !fn.Object().Exported() || len(fn.Blocks) == 0 || takesOpts(fn) < 0 {
+			continue
+		}
+		k := 0
+		for _, b := range fn.Blocks {
+			for _, ins := range b.Instrs {
+				c, isCall := ins.(*ssa.Call)
+				if !isCall {
+					continue
+				}
+				callee := c.Call.StaticCallee()
+				if callee == nil || callee.Name() != "ReadAll" || callee.Pkg == nil || (callee.Pkg.Pkg.Path() != "io" && callee.Pkg.Pkg.Path() != "io/ioutil") || len(c.Call.Args) != 1 {
+					continue
+				}
+				k++
+				src := c.Call.Args[0]
+				if mi, isMI := src.(*ssa.MakeInterface); isMI {
+					src = mi.X // a *os.File the function opened itself, handed over as an io.Reader
+				}
+				okSrc := false
+				if p, isP := src.(*ssa.Parameter); isP && p.Parent() == fn {
+					okSrc = true
+				}
+				if ex, isEx := src.(*ssa.Extract); isEx {
+					if oc, isOC := ex.Tuple.(*ssa.Call); isOC {
+						if g := oc.Call.StaticCallee(); g != nil && g.Pkg != nil && g.Pkg.Pkg.Path() == "os" && g.Name() == "Open" {
+							okSrc = true
+						}
+					}
+				}
+				r.Check(pfx+".transport", fmt.Sprintf("wrapper-input:%s#%d", fn.Name(), k), prog.pos(c.Pos()), okSrc,
+					fn.Name()+" does not read its input from the reader it was given (or the file it opened) but from "+describeRoot(prog, c.Call.Args[0])+": input beyond what that value yields is never parsed")
+			}
+		}
+	}
 }
 
 // checkWrapperResults: an entry point that hands the work on (ParseFile → ParseReader → Parse) returns what it got: the
